@@ -131,9 +131,13 @@ def u_edges(F=2, V=None, contact=None, template=None, ordered=False):
         Fs, base, V, _ids = template_faces(template)
         F = len(Fs)
         if ordered:
-            # labels of earlier faces below labels of later faces (cuts the label orders explored; stated bound)
-            for i in range(F - 1):
-                base += [a < b for a in Fs[i] for b in Fs[i + 1]]
+            # labels increase in the order of their first appearance in the face list (one label order per template instead of all
+            # relative orders; a stated bound, always satisfiable)
+            seen = []
+            for ch in ''.join(TEMPLATES[template]):
+                if ch not in seen:
+                    seen.append(ch)
+            base += [_ids[x] < _ids[y] for x, y in zip(seen, seen[1:])]
     else:
         V = V or max(3, 3 * F - 1)
         Fs, base = sym_faces(F, V)
